@@ -43,7 +43,7 @@ pub struct DiskScenario {
 /// Deep-nesting / huge-literal sources: the parser's limits, not the stack, must stop them.
 /// `depth` up to 90 goes through the full fault closure; "deep" scenarios use 100..20000 levels
 /// with a handful of variants (cheap while the limits work: the parser gives up at level ~40).
-pub const NEST_KINDS: usize = 24;
+pub const NEST_KINDS: usize = 25;
 pub fn nest_source(kind: usize, depth: usize, rng: &Rng, d: &Delims) -> String {
     let tag = |s: &str| format!("{} {} {}", d.bs, s, d.be);
     let var = |s: &str| format!("{} {} {}", d.vs, d.sanitize_inner(s), d.ve);
@@ -133,7 +133,21 @@ pub fn nest_source(kind: usize, depth: usize, rng: &Rng, d: &Delims) -> String {
             }
             s
         }
-        _ => var(&wrap("{...", "{}", "}")),
+        23 => var(&wrap("{...", "{}", "}")),
+        // token shapes at the edges of what the lexer accepts (numbers around the i64 range,
+        // odd floats, quote styles, a backslash last)
+        _ => {
+            const TOKENS: &[&str] = &[
+                "9223372036854775807", "9223372036854775808", "-9223372036854775808", "-9223372036854775809", "- 9223372036854775808",
+                "18446744073709551616", "340282366920938463463374607431768211456", "00012", "1.", ".5", "1.2.3", "1e5", "1E-5", "1_000", "0x1F",
+                "1.7976931348623157e309", "0.000000000000000000000000000000000000000000001", "123456789012345678901234567890.123456789012345678901234567890",
+                "a1.b2", "a.1", "a.1.2", "a1b2c3", "1a", "\"it's `x`\"", "'say \"hi\" `x`'", "`both ' and \"`", "\"ends with backslash\\\"", "\"\\",
+                "\"unterminated", "'\u{e9}\\'", "-", "--1", "- -1", "not not true", "1 -", "1 +", "(", ")", "1 2", "a b", "a..b", "a.", ".a", "a[", "a[]", "a[:]", "a[::]", "a?.", "a?[",
+            ];
+            let t = rng.pick(TOKENS);
+            // (not through sanitize_inner: these are meant to be what they are)
+            format!("{} {} {}", d.vs, t, d.ve)
+        }
     }
 }
 
